@@ -593,6 +593,100 @@ pub fn check_long(tmp: &Path, c: &LongLife, obs: &mut Obs) -> CaseResult {
     r
 }
 
+/// The appender is given a RELATIVE path and the process changes its working directory afterwards (a daemon that
+/// does its chdir once logging is set up): the log file is the one the path named when the appender was built, and
+/// every record acknowledged later belongs there as well - not in a new file under the new working directory.
+#[derive(Serialize, Deserialize, Debug, Clone)]
+pub struct Relative {
+    pub before: u8,
+    pub after: u8,
+    pub append_mode: bool,
+    pub rolling: bool,
+    /// 0: "rel.log", 1: "logs/rel.log", 2: "./logs/../rel.log"
+    pub form: u8,
+    /// the new working directory has (1) / has not (0) a sub-directory `logs`; (2) it holds a file of the same relative name
+    pub new_cwd: u8,
+    pub pre_existing: bool,
+}
+
+pub fn relative_strategy() -> impl Strategy<Value = Relative> {
+    (0u8..4, 1u8..5, prop::bool::ANY, prop::bool::ANY, 0u8..3, 0u8..3, prop::bool::ANY)
+        .prop_map(|(before, after, append_mode, rolling, form, new_cwd, pre_existing)| Relative { before, after, append_mode, rolling, form, new_cwd, pre_existing })
+}
+
+pub fn check_relative(tmp: &Path, c: &Relative, obs: &mut Obs) -> CaseResult {
+    let dir = scratch(tmp, "c04r");
+    let r = (|| -> CaseResult {
+        let (a, b) = (dir.join("cwd-a"), dir.join("cwd-b"));
+        std::fs::create_dir_all(a.join("logs")).unwrap();
+        std::fs::create_dir_all(&b).unwrap();
+        let (rel, real) = match c.form % 3 {
+            0 => ("rel.log", a.join("rel.log")),
+            1 => ("logs/rel.log", a.join("logs/rel.log")),
+            _ => ("./logs/../rel.log", a.join("rel.log")),
+        };
+        let mut expected: Vec<u8> = vec![];
+        if c.pre_existing {
+            let old = record_text(7, 0, 9);
+            std::fs::write(&real, old.as_bytes()).unwrap();
+            if c.append_mode {
+                expected.extend_from_slice(old.as_bytes());
+            }
+        }
+        let other_text = b"somebody else's file\n".to_vec();
+        if c.new_cwd % 3 >= 1 {
+            std::fs::create_dir_all(b.join("logs")).unwrap();
+        }
+        if c.new_cwd % 3 == 2 {
+            std::fs::write(b.join(rel), &other_text).unwrap();
+        }
+        let snap_b = crate::fsx::snap(&b);
+        std::env::set_current_dir(&a).map_err(|e| Failure { sig: "C04:harness".into(), msg: e.to_string() })?;
+        let build = || -> Result<Box<dyn Append>, String> {
+            if c.rolling {
+                use log4rs::append::rolling_file::policy::compound::{roll::delete::DeleteRoller, trigger::size::SizeTrigger, CompoundPolicy};
+                let policy = CompoundPolicy::new(Box::new(SizeTrigger::new(1 << 40)), Box::new(DeleteRoller::new()));
+                log4rs::append::rolling_file::RollingFileAppender::builder().append(c.append_mode).encoder(make_encoder(&None)).build(rel, Box::new(policy)).map(|x| Box::new(x) as Box<dyn Append>).map_err(|e| e.to_string())
+            } else {
+                FileAppender::builder().append(c.append_mode).encoder(make_encoder(&None)).build(rel).map(|x| Box::new(x) as Box<dyn Append>).map_err(|e| e.to_string())
+            }
+        };
+        let app = build().map_err(|e| Failure { sig: "C04:build".into(), msg: e })?;
+        let mut seq = 0u32;
+        let mut step = |app: &dyn Append, expected: &mut Vec<u8>, what: &str| -> CaseResult {
+            let text = record_text(0, seq, 6 + seq as usize % 5);
+            seq += 1;
+            match catch(|| append_msg(app, &text)) {
+                Err(p) => return fail("C04:panic", format!("append {} panicked: {}", what, p)),
+                Ok(Err(e)) => return fail("C04:append-error", format!("append {} failed: {}", what, e)),
+                Ok(Ok(())) => {}
+            }
+            expected.extend_from_slice(text.as_bytes());
+            let got = std::fs::read(&real).unwrap_or_default();
+            ensure!(got == *expected, if got.len() < expected.len() { "C04:not-visible" } else { "C04:content" }, "appender built on the relative path {:?} in {}: after the acknowledged append {} the log file holds {} bytes, expected {}", rel, a.display(), what, got.len(), expected.len());
+            Ok(())
+        };
+        for i in 0..c.before {
+            step(&*app, &mut expected, &format!("#{} (before the working directory changes)", i))?;
+        }
+        std::env::set_current_dir(&b).map_err(|e| Failure { sig: "C04:harness".into(), msg: e.to_string() })?;
+        for i in 0..c.after {
+            step(&*app, &mut expected, &format!("#{} after the working directory changed", i))?;
+        }
+        app.flush();
+        drop(app);
+        let _ = std::env::set_current_dir("/");
+        ensure!(crate::fsx::snap(&b) == snap_b, "C04:stray-file", "appending through an appender built on a relative path changed the NEW working directory {}", b.display());
+        obs.sub_evals += (c.before + c.after) as u64;
+        obs.nontrivial = true;
+        obs.class(if c.rolling { "relative-path:rolling" } else { "relative-path:file" });
+        Ok(())
+    })();
+    let _ = std::env::set_current_dir("/");
+    let _ = std::fs::remove_dir_all(&dir);
+    r
+}
+
 /// The log "file" is /dev/full: every write the kernel sees fails with ENOSPC. Whatever buffering sits in between, an
 /// append that returns Ok has put its record where a reader finds it - so here no append may return Ok.
 #[derive(Serialize, Deserialize, Debug, Clone)]
@@ -820,6 +914,10 @@ pub fn run(run: &Run) {
             }
         }
     }
+    let t8 = tmp.clone();
+    let relf = move |c: &Relative, o: &mut Obs| check_relative(&t8, c, o);
+    run.run_replays::<Relative>("relative-path", &relf);
+    run.search("relative-path", run.tier.pick(60, 2_000), relative_strategy(), &relf);
     let f = move |c: &Case, o: &mut Obs| check(&tmp, c, o);
     run.run_replays::<Case>("file", &f);
     run.search("file", run.tier.pick(600, 20_000), strategy(), &f);
@@ -831,6 +929,13 @@ pub fn replay(part: &str, case: serde_json::Value) -> Option<CaseResult> {
             let tmp = std::env::temp_dir().join(format!("lv-replay-{}", std::process::id()));
             std::fs::create_dir_all(&tmp).ok()?;
             let r = check(&tmp, &serde_json::from_value(case).ok()?, &mut Obs::default());
+            let _ = std::fs::remove_dir_all(&tmp);
+            Some(r)
+        }
+        "relative-path" => {
+            let tmp = std::env::temp_dir().join(format!("lv-replay-{}", std::process::id()));
+            std::fs::create_dir_all(&tmp).ok()?;
+            let r = check_relative(&tmp, &serde_json::from_value(case).ok()?, &mut Obs::default());
             let _ = std::fs::remove_dir_all(&tmp);
             Some(r)
         }
